@@ -23,6 +23,7 @@ class Ctx:
     pass
 
 
+EXTRA_SEEDS = 3
 QUICK_DEEP = {"C02", "C03", "C04", "C05", "C06", "C07", "C10", "C11", "C14", "C15", "C16", "C17", "C18", "C19"}
 
 
@@ -192,6 +193,18 @@ def main():
     try:
         if exes_ok:
             mod.correspond(ctx, corr)
+            # thorough tier: the sampled suites again under further seeds (the exhaustive ones simply repeat),
+            # as long as nothing has been found and the budget allows
+            extra = 0
+            if args.tier == "thorough" and not ctx.tie_broken:
+                budget = float(os.environ.get("VERIF_THOROUGH_BUDGET_S", "420"))
+                while (extra < EXTRA_SEEDS and not corr.disagreements and not corr.violations
+                       and time.time() - ctx.t0 < budget):
+                    extra += 1
+                    ctx.rng = random.Random((seed + 1000 * extra) * 7919 + int(prop[1:]))
+                    mod.correspond(ctx, corr)
+                log("CORRESPOND: %d further seed(s) in the thorough tier" % extra)
+            ctx.extra_seeds = extra
         else:
             broken.append("model drivers %s do not build (regenerated tables no longer fit the model)" % mod.EXES)
             log("CORRESPOND: skipped, model drivers unavailable")
@@ -247,6 +260,7 @@ def main():
         "known_findings_reproduced": sorted(seen_known),
         "gen": {k: v for k, v in gen_info.items() if k != "files"},
         "tie_by_translation": ctx.tie,
+        "extra_seeds": getattr(ctx, "extra_seeds", 0),
         "partial": getattr(mod, "PARTIAL", ""),
     }
     assumptions = list(getattr(mod, "ASSUMPTIONS", []))
